@@ -108,7 +108,11 @@ func (c *LRUCache) Put(key uint64, bm *roaring.Bitmap) {
 	if elem, ok := c.entries[key]; ok {
 		c.lruList.MoveToFront(elem)
 		item := elem.Value.(*lruCacheItem)
+		c.curSize -= item.size
+		item.size = bm.GetSizeInBytes()
+		c.curSize += item.size
 		item.bm = bm
+		c.evict()
 		return
 	}
 
@@ -122,6 +126,11 @@ func (c *LRUCache) Put(key uint64, bm *roaring.Bitmap) {
 
 	c.curSize += item.size + uint64(lruCacheItemSize) + uint64(listElementSize)
 
+	c.evict()
+}
+
+// evict removes least recently used entries until the cache is within its maximum size.
+func (c *LRUCache) evict() {
 	for c.curSize > c.maxSize && c.lruList.Len() > 0 {
 		item := c.lruList.Remove(c.lruList.Back()).(*lruCacheItem)
 		c.curSize -= item.size + uint64(lruCacheItemSize) + uint64(listElementSize)
